@@ -1,10 +1,17 @@
 (* Extract/C17.v — extraction of the C17 model (primitive floats) for the correspondence driver.
-   Directives in force: only those of the standard files required here. *)
+   Directives in force: only those of the standard files required here.
+   Besides the conversion functions of Model/Amount.v: the session models (Model/AmountSession.v), the
+   transaction-amount session (Model/AmountTx.v) and, through it, the C07 fee-bump functions
+   (Model/BumpFee.v: bump_amounts, bump_loop, tx_bumpfee). *)
 From Coq Require Extraction ExtrOcamlBasic ExtrOcamlZBigInt ExtrOCamlFloats ExtrOCamlInt63.
 From Coq Require Import Floats.PrimFloat Floats.SpecFloat Floats.FloatOps.
-From Verif Require Import Lib.Bytes Float.DecRound Float.B64 Model.Amount.
+From Verif Require Import Lib.Bytes Float.DecRound Float.B64 Model.Amount Model.AmountSession.
+From Verif Require Model.CoinSelect Model.TxCreate Model.BumpFee Model.AmountTx.
 Extraction Language OCaml.
 Extraction "../ocaml/c17_model.ml" bz zb Prim2SF SF2Prim cps nets dens default_network_name find_by_name find_by_code
   py_float py_int b64_of_Z b64_round b64_round_nd b64_fmt b64_of_hex b64_of_dec log10_trunc
   lib_value_init_str lib_value_init_num lib_value_sat lib_value_to_satoshi lib_from_satoshi lib_str lib_to_bytes
-  lib_arith lib_output_value lib_add_output lib_raw_value.
+  lib_arith lib_output_value lib_add_output lib_raw_value
+  lib_conv lib_conv_session lib_vsession lib_value_default lib_value_float lib_add_output_value
+  AmountTx.x_init AmountTx.x_step AmountTx.x_run AmountTx.x_net AmountTx.rate2_of
+  BumpFee.tx_bumpfee BumpFee.bump_loop BumpFee.bump_amounts.
